@@ -127,8 +127,11 @@ func childWdLive() int {
 			i := 0
 			for range time.Tick(300 * time.Millisecond) {
 				i++
-				spl.Request(mkReq(fmt.Sprintf("w%d", i), "spl", 1), service.INSERT_MODE_SYNC)
-				ts.Request(mkReq(fmt.Sprintf("w%d", i), "ts", 1), service.INSERT_MODE_SYNC)
+				if _, pan := safeRequest(spl, mkReq(fmt.Sprintf("w%d", i), "spl", 1), service.INSERT_MODE_SYNC); pan != "" {
+					fmt.Fprintf(os.Stdout, "\nX03-PANIC %s\n", pan)
+					os.Exit(7)
+				}
+				safeRequest(ts, mkReq(fmt.Sprintf("w%d", i), "ts", 1), service.INSERT_MODE_SYNC)
 			}
 		}()
 	}
@@ -173,6 +176,16 @@ func runWdPlan(p WdPlan) (WdResult, string) {
 	}
 	if !found {
 		return res, fmt.Sprintf("scenario %d: the child reported nothing (code %d, ran %v): %s", p.ID, code, end.Sub(t0), tail(logs, 800))
+	}
+	if code == 7 || (code == 2 && strings.Contains(logs, "panic:") && strings.Contains(logs, "github.com/metrico/qryn/")) {
+		res.Note = "panic in the code under test"
+		if i := strings.Index(logs, "X03-PANIC "); i >= 0 {
+			res.Note += ": " + strings.SplitN(logs[i+10:], "\n", 2)[0]
+		} else {
+			res.Note += ": " + panicLine(logs)
+		}
+		res.ExitCode = code
+		return res, ""
 	}
 	res.ExitCode = code
 	res.Exited = code != 0
